@@ -15,7 +15,7 @@ ID = "C04"
 LEVEL = "model_checking"
 RULE = (
     "states = scalar recipes of layers A (depth<=2), B (<=N nodes), D (vector/matrix reductions in depth<=1 "
-    "contexts) and E (vector nodes holding non-polynomial or higher-degree elements, vector powers "
+    "contexts), F (numpy spellings of constants: numpy scalars, 0-d and multi-element array constants as exponent, factor, divisor, addend - an array constant makes the expression array-valued and its degree is the largest component degree) and E (vector nodes holding non-polynomial or higher-degree elements, vector powers "
     "k in {0,1,2,3,0.5,-1,2.5}, constant sub-expressions, parameters); each recipe is rebuilt fresh and "
     "classified by the recursive and by the iterative traversal through e.degree, compute_degree, is_linear, "
     "is_quadratic, Expression.is_linear, Problem._is_linear_problem and Problem._auto_select_method, and once more "
@@ -69,13 +69,66 @@ def layer_E():
     return out + ctx
 
 
+def layer_F():
+    """numpy spellings of constants: numpy scalars, 0-d arrays and multi-element arrays (an array constant makes the
+    expression array-valued: its degree is the largest component degree, non-polynomial if any component is)."""
+    arrays = [(2.0,), (2.0, 2.0), (1.0, 3.0), (3.0, 1.0), (2.0, 0.5), (0.5, 2.0), (1.0, -1.0), (-1.0, 1.0), (0.0, 2.0, 4.0),
+              (1.0, 1.0), (0.0, 0.0), (1.0, 2.0), (0.0, 1.0), (1.0, 1.5), (1.0, 1.0, 1.0, 7.0)]
+    consts = [("ka", a, w) for a in arrays for w in ("arr", "Const")]
+    consts += [("k", v, sp) for v in (0, 1, 2, 3, -1) for sp in ("np64", "npi", "a0")] + [("k", 0.5, "np64"), ("k", 2.5, "a0")]
+    out = []
+    for base in (X, ("bin", "+", X, Y), ("bin", "*", X, Y)):
+        for k in consts:
+            for op in ("**", "*", "/", "+"):
+                out.append(("bin", op, base, k))
+            if k[0] == "ka" and k[2] == "Const" or k[0] == "k":
+                for op in ("**", "*", "/", "-"):
+                    out.append(("bin", op, k, base))
+    ctx = []
+    for r in out:
+        ctx += [("bin", "+", r, Y), ("bin", "*", ("c", 2), r), ("bin", "+", ("bin", "*", ("c", 2), r), Y), ("bin", "*", r, X),
+                ("bin", "**", r, ("c", 2)), ("un", "neg", r), ("bin", "-", X, r)]
+    return out + ctx
+
+
+def expand(r):
+    """component recipes of a recipe holding ("ka", values, wrap) array constants (index-aligned broadcasting)."""
+    lens = set()
+
+    def scan(t):
+        if isinstance(t, tuple):
+            if t and t[0] == "ka":
+                lens.add(len(t[1]))
+                return
+            for u in t:
+                scan(u)
+
+    scan(r)
+    if not lens:
+        return [r]
+    n = max(lens)
+
+    def sub(t, i):
+        if isinstance(t, tuple):
+            if t and t[0] == "ka":
+                return ("c", t[1][i % len(t[1])])
+            if t and t[0] == "k":
+                return ("c", t[1])
+            return tuple(sub(u, i) for u in t)
+        return t
+
+    return [sub(r, i) for i in range(n)]
+
+
 def shards(tier, seed):
-    return layer_items(nC=0) + [("E", i, 4) for i in range(4)]
+    return layer_items(nC=0) + [("E", i, 4) for i in range(4)] + [("F", i, 4) for i in range(4)]
 
 
 def recipes(item, tier):
     if item[0] == "E":
         return L.shard(iter(layer_E()), item[1], item[2])
+    if item[0] == "F":
+        return L.shard(iter(layer_F()), item[1], item[2])
     return layer_recipes(item, tier)
 
 
@@ -107,16 +160,23 @@ def check_recipe(r, tier, seed, rep=None, want=None):
     from optyx.core.expressions import Expression
 
     fails = Fails(want)
-    names = var_names(r)
-    pnames = param_names(r)
+    comps = expand(r)
+    names = var_names(comps[0])
+    pnames = param_names(comps[0])
     params = {p: 0.75 for p in pnames}
     try:
-        poly = ref_poly(r, names, params)
+        polys = [ref_poly(cr, names, params) for cr in comps]
     except Exception as ex:
         if rep:
             rep.skipped["no_denotation:" + type(ex).__name__] += 1
         return fails
-    true_deg = None if poly is None else poly.degree()
+    if any(q is None for q in polys):
+        wi = [q is None for q in polys].index(True)
+        true_deg = None
+    else:
+        wi = max(range(len(polys)), key=lambda i: polys[i].degree())
+        true_deg = polys[wi].degree()
+    poly, worst = polys[wi], comps[wi]
     reported = {}
 
     def fresh():
@@ -167,7 +227,7 @@ def check_recipe(r, tier, seed, rep=None, want=None):
     # (a user inspects a term, or solved a model containing it, and then reuses the same object)
     from mc.interp import walk, kind_of
 
-    subs = [s_ for s_ in walk(r) if kind_of(s_) == "s"]
+    subs = [s_ for s_ in walk(r) if kind_of(s_) == "s" and s_[0] not in ("ka", "k")]
     subs = sorted(set(subs), key=lambda t: (size(t), repr(t)))
     for trav, thr in (("recursive", None), ("iterative", 0)):
         ctxs = threshold(thr, analysis) if thr is not None else threshold(analysis._RECURSION_THRESHOLD, analysis)
@@ -207,10 +267,11 @@ def check_recipe(r, tier, seed, rep=None, want=None):
             if true_deg > d:
                 mono = max(poly.t, key=sum)
                 fails.add("under-report:" + label, reported=d, true_degree=true_deg,
-                          witness={"monomial": dict(zip(names, mono)), "coefficient": str(poly.t[mono])})
+                          witness={"monomial": dict(zip(names, mono)), "coefficient": str(poly.t[mono]),
+                                   **({"component": wi} if len(comps) > 1 else {})})
         else:
             if d not in wit_cache:
-                wit_cache[d] = witness_nonpoly(r, names, params, d)
+                wit_cache[d] = witness_nonpoly(worst, names, params, d)
             if wit_cache[d] is not None:
                 fails.add("under-report:" + label, reported=d, true_degree="non-polynomial", witness=wit_cache[d])
             elif rep:
